@@ -14,7 +14,7 @@ ID = "C02"
 LEAN_TARGETS = ["OdxVerif.Props.C02"]
 DRIVERS = ["drv_codec"]
 P = "OdxVerif.Codec."
-THEOREMS = [P + t for t in ["C02_numrepr", "C02_atomic_layout", "C02_decode_reads", "C02_bit_exact_flat", "flat_described", "flat_undescribed", "read_place_roundtrip",
+THEOREMS = [P + t for t in ["C02_numrepr", "C02_atomic_layout", "C02_decode_reads", "C02_bit_exact_flat", "Obj.raw_eq_spec", "Obj.raw_spec", "Obj.canon_spec", "flat_described", "flat_undescribed", "read_place_roundtrip",
                             "getBit_place_inside", "getD_place_outside"]]
 GENERATORS = []
 RULE = ("(a) atomic: EncodeState.emplace_atomic_value / DecodeState.extract_atomic_value on pre-filled buffers, every base type x legal "
